@@ -94,16 +94,17 @@ namespace sqf::runtime
 #pragma region Runtime state handling
 
     private:
-        bool m_is_halt_requested;
-        bool m_is_exit_requested;
-        state m_state;
-        int m_exit_code;
+        // written by a controlling thread (stop, abort) while another thread executes
+        std::atomic<bool> m_is_halt_requested;
+        std::atomic<bool> m_is_exit_requested;
+        std::atomic<state> m_state;
+        std::atomic<int> m_exit_code;
         std::atomic<bool> m_run_atomic;
 
     public:
         bool is_exit_requested() const { return m_is_exit_requested; }
         void exit(int exit_code) { m_exit_code = exit_code; m_is_exit_requested = true; }
-        std::optional<int> exit_code() const { return m_is_exit_requested ? m_exit_code : std::optional<int>(); }
+        std::optional<int> exit_code() const { return m_is_exit_requested ? m_exit_code.load() : std::optional<int>(); }
         state runtime_state() const { return m_state; }
 
 #pragma endregion
